@@ -1504,3 +1504,33 @@ pub mod specparse {
         }
     }
 }
+
+// C01 R26 controls: half-away rounding and extremes by `<` / `>` alone
+pub mod c01math {
+    pub mod prelude { pub fn round(x: f64) -> f64 { x.round() } }
+    /// BAD (R26a): through the wrapper
+    pub fn bad_round(args: &[f64]) -> f64 { let n = args.first().copied().unwrap_or(f64::NAN); prelude::round(n) }
+    /// BAD (R26a): directly
+    pub fn bad_round_direct(args: &[f64]) -> f64 { let n = args.first().copied().unwrap_or(f64::NAN); if n.is_nan() { n } else { (n * 2.0).round() / 2.0 } }
+    /// GOOD (R26a)
+    pub fn good_round(args: &[f64]) -> f64 {
+        let n = args.first().copied().unwrap_or(f64::NAN);
+        let f = n.floor();
+        let r = if n - f >= 0.5 { f + 1.0 } else { f };
+        if r == 0.0 && n.is_sign_negative() { -0.0 } else { r }
+    }
+    /// BAD (R26b)
+    pub fn bad_max(v: &[f64]) -> f64 {
+        let mut m = f64::NEG_INFINITY;
+        for x in v { let n = *x; if n.is_nan() { return n; } if n > m { m = n; } }
+        m
+    }
+    /// GOOD (R26b)
+    pub fn good_max(v: &[f64]) -> f64 {
+        let mut m = f64::NEG_INFINITY;
+        for x in v { let n = *x; if n.is_nan() { return n; } if n > m || (n == 0.0 && m == 0.0 && n.is_sign_positive()) { m = n; } }
+        m
+    }
+    /// not an extreme: a threshold count
+    pub fn count_above(v: &[f64], t: f64) -> usize { let mut c = 0; for x in v { if *x > t { c += 1; } } c }
+}
